@@ -249,6 +249,7 @@ func valStr(v []byte) string {
 // Session: a database under test in lock-step with the model.
 
 type Session struct {
+	MayFail  bool // Put/Delete may return an error (the environment refuses the write): no effect expected
 	Spell    bool // every Open spells DirPath differently (trailing separator, /., /./, //)
 	nOpen    int
 	NoStates bool // large models: do not hash the mapping after every mutation
@@ -596,6 +597,11 @@ func (s *Session) exec1(op Op) bool {
 			}
 			return true
 		}
+		if err != nil && s.MayFail {
+			// a refused write must leave the mapping as it was
+			s.Res.Add("failed_calls_checked_for_no_effect", 1)
+			return s.CheckGet(op.Key)
+		}
 		if err != nil {
 			s.fail("wrong-result", fmt.Sprintf("%s returned error %v", op, err), "call", "Put", "err", err.Error())
 			return false
@@ -618,6 +624,10 @@ func (s *Session) exec1(op Op) bool {
 				s.fail("wrong-result", fmt.Sprintf("Delete(empty key) err=%v", err), "call", "Delete")
 			}
 			return true
+		}
+		if err != nil && s.MayFail {
+			s.Res.Add("failed_calls_checked_for_no_effect", 1)
+			return s.CheckGet(op.Key)
 		}
 		if err != nil {
 			s.fail("wrong-result", fmt.Sprintf("%s returned error %v", op, err), "call", "Delete", "err", err.Error())
